@@ -111,6 +111,8 @@ type pathExec struct {
 	timeVars        []*smt.Term
 	strTab          map[string]value
 	floatStrings    map[string][2]*smt.Term
+	clock           int
+	initFailed      map[string]string
 }
 
 func (px *pathExec) freshVar(name string, s smt.Sort) *smt.Term {
@@ -557,6 +559,7 @@ type Env struct {
 	intrinsics map[string]externalFn
 	Verbose    bool
 	Tier       string
+	ModPath    string
 	Sem        chan struct{} // global cap on concurrently executing paths (across harnesses)
 }
 
@@ -719,7 +722,7 @@ type pathOutcome struct {
 func (e *Env) runPath(h *HarnessRun, solver *smt.Solver, prefix []Decision) (px *pathExec) {
 	px = &pathExec{ctx: smt.NewCtx(), solver: solver, h: h, prefix: prefix, maxSteps: e.MaxSteps, unwind: e.Unwind,
 		nameCount: map[string]int{}, asserts: map[string]*AssertStat{}, funcs: map[*ssa.Function]struct{}{},
-		havocKernels: map[string]int{}, strTab: map[string]value{}, floatStrings: map[string][2]*smt.Term{}}
+		havocKernels: map[string]int{}, strTab: map[string]value{}, floatStrings: map[string][2]*smt.Term{}, initFailed: map[string]string{}}
 	i := &interpreter{prog: e.Prog, globals: map[*ssa.Global]*value{}, initState: map[*ssa.Package]int{}, px: px, env: e}
 	if rt := e.Prog.ImportedPackage("runtime"); rt != nil {
 		i.runtimeErrorString = rt.Type("errorString").Object().Type()
